@@ -49,7 +49,7 @@ fn canary_of(v: &Canon) -> Option<&'static str> {
 fn gen_stmt(rng: &mut Rng) -> Stmt {
     let k = 1100 + rng.range(0, 3);
     let mk = |sql: String, shape: &'static str, needs: Vec<(&'static str, Pr)>, reads: Vec<&'static str>, writes: Option<&'static str>| Stmt { sql, shape, needs, reads, writes };
-    match rng.below(22) {
+    match rng.below(25) {
         0 => mk("SELECT id, a FROM t1".into(), "scan", vec![("T1", Pr::Select)], vec!["T1"], None),
         1 => mk(format!("SELECT id, a FROM t1 WHERE a = {}", k), "index-scan-eq", vec![("T1", Pr::Select)], vec!["T1"], None),
         2 => mk(format!("SELECT id FROM t1 WHERE a >= {} ORDER BY a", k), "index-scan-range-order", vec![("T1", Pr::Select)], vec!["T1"], None),
@@ -73,6 +73,10 @@ fn gen_stmt(rng: &mut Rng) -> Stmt {
         18 => mk(format!("SELECT id FROM t2 WHERE id - 1000 IN (SELECT id FROM t1 WHERE a BETWEEN {} AND {})", k - 50, k + 50), "in-subquery-unqualified-filtered", vec![("T1", Pr::Select), ("T2", Pr::Select)], vec!["T1", "T2"], None),
         19 => mk("SELECT id FROM t2 WHERE EXISTS (SELECT 1 FROM t1 WHERE a = 1100)".into(), "exists-subquery-uncorrelated", vec![("T1", Pr::Select), ("T2", Pr::Select)], vec!["T1", "T2"], None),
         20 => mk("SELECT id, (SELECT MIN(a) FROM t1) FROM t2".into(), "scalar-subquery-unqualified", vec![("T1", Pr::Select), ("T2", Pr::Select)], vec!["T1", "T2"], None),
+        // aggregate shortcuts that answer from table metadata instead of scanning
+        21 => mk("SELECT COUNT(*) FROM t1".into(), "count-star", vec![("T1", Pr::Select)], vec![], None),
+        22 => mk("SELECT MIN(a), MAX(a) FROM t1".into(), "min-max", vec![("T1", Pr::Select)], vec!["T1"], None),
+        23 => mk("SELECT COUNT(*), SUM(a) FROM t1 WHERE a >= 0".into(), "columnar-aggregate", vec![("T1", Pr::Select)], vec![], None),
         _ => mk("SELECT id, a FROM v1".into(), "view", vec![], vec!["T1"], None),
     }
 }
